@@ -326,12 +326,27 @@ def rule_f(ctx, ix):
     from ..cfg import CFG
     cfg = CFG(f.node)
     # a membership guard: an If whose test looks at the datasets of the existing members and compares with the parameter
-    guards = []
-    for g in walk_no_nested(f.node):
-        if isinstance(g, ast.If):
-            t = unparse(g.test)
-            if '%s.subsets' % s in t and p in [x.id for x in ast.walk(g.test) if isinstance(x, ast.Name)] and '.data' in t:
-                guards.append(g)
+    def membership_test(test):
+        """The test looks at the datasets of the existing members and compares them with the parameter - directly, or through a
+        predicate method of the class that does."""
+        t = unparse(test)
+        names = [x.id for x in ast.walk(test) if isinstance(x, ast.Name)]
+        if '%s.subsets' % s in t and p in names and '.data' in t:
+            return True
+        for c in ast.walk(test):
+            if isinstance(c, ast.Call) and isinstance(c.func, ast.Attribute) and unparse(c.func.value) == s and \
+                    any(isinstance(a, ast.Name) and a.id == p for a in c.args):
+                h = sg.resolve_func(c.func.attr)
+                if h is None:
+                    continue
+                hp = h.params[1 + [unparse(a) for a in c.args].index(p)] if len(h.params) > 1 else None
+                hb = unparse(h.raw_node)
+                cmps = [x for x in ast.walk(h.raw_node) if isinstance(x, ast.Compare) and '.data' in unparse(x)
+                        and hp in [y.id for y in ast.walk(x) if isinstance(y, ast.Name)]]
+                if hp and '%s.subsets' % h.self_name in hb and cmps:
+                    return True
+        return False
+    guards = [g for g in walk_no_nested(f.node) if isinstance(g, ast.If) and membership_test(g.test)]
     ok = False
     for g in guards:
         early = any(isinstance(x, ast.Return) for x in g.body)
